@@ -783,6 +783,9 @@ package zygo
 // fresh lexer has.
 //@ resets C13 Lexer | (*Lexer).Reset | (*Lexer).PeekNextToken, (*Lexer).GetNextToken, (*Lexer).LexNextRune, (*Lexer).AddNextStream, (*Lexer).PromoteNextStream | parser
 //@ func (*Lexer).Reset
+//@ ghost bufferEmptied := false @entry
+//@ ghost bufferEmptied := arg0 == lex.buffer @after call Reset[0]
+//@ C05,C13 ensures rune-buffer-emptied: bufferEmptied && lex.buffer == old(lex.buffer)
 //@ C13 ensures fresh-values: lex.state == LexerNormal && lex.linenum == 1 && len(lex.tokens) == 0 && lex.stream == nil && len(lex.next) == 0
 //@ |  && lex.prevrune == 0 && lex.preBuiltinRune == 0 && lex.priori == 0 && forall(k, 0 <= k && k < 20 ==> lex.priorRune[k] == 0)
 //@ |  && lex.prevToken.typ == 0 && lex.prevToken.str == ""
